@@ -39,7 +39,7 @@ def dpipe_ops(t):
     for lab in t:
         nm, a = vlib.parse_label(lab)
         if nm == "W":
-            ops.append({"op": "W", "e": a[0], "len": [4, 9, 1200][k % 3]})
+            ops.append({"op": "W", "e": a[0], "len": [4, 0, 9, 1200][k % 4]})
             k += 1
         elif nm == "R":
             ops.append({"op": "R", "e": a[0], "n": {0: 4, 2: 6, 5: 4000}[a[1]]})
